@@ -80,7 +80,7 @@ CHECKS.update({
 CHECKS.update({
     "C10": dict(level="other", design="4/C10", note="derivative bounds hold for the formulas built from the shipped coefficient tables and are derived by TLC in exact arithmetic; the code is tied to the formulas through observed values (rounding allowances 1e-11 / 1e-10); the certificate searches (Python) are untrusted - they can only cause 'undecided'; StronginC3 has no acceptance certificate (refutation sampling only) and stays undecided; TLC 1.8.0, CommunityModules, Q kernel",
                 technique="TLC-checked certificates per instance: Cert1D.tla (Hill, Shekel, 1-D Rastrigin), GKLSSpec.tla (global minimum decided from the generated parameters), Bench.tla (XSquared exact, Rastrigin separability, Shekel4 branch-and-bound tree with exact interval bounds), BoxCert2D.tla (Grishagin quadtrees with second-order bounds of the trigonometric polynomial f^2)",
-                text="Each instance is decided by a certificate that TLC checks in exact rational arithmetic; clauses: the objective at the declared point is within 1e-4 of the declared value, no point of the box is lower than f* - 2e-3 max(1,|f*|), and every global minimiser lies within 0.5% of the box side of the declared point. Hill and Shekel (quick: 120 + 120 sampled, thorough: all 2000): Cert1D.tla with the optimum the problem object declares (convexity or end-point monotonicity near the declared point, certified sign change, covering with cell-wise lower bounds from Taylor's theorem and coefficient-derived derivative bounds). GKLS (quick 48, thorough all 400): outside the balls f is the non-negative paraboloid; inside ball i, f - f_i = n^2 (A n + B) with A n + B affine in the radius and the cosine, so four rational inequalities per basin (checked from the generated parameters) give f >= f_i >= -1 with equality only at the declared global minimiser; Calculate is tied to the case analysis point-wise. XSquared and Rastrigin in dimensions 1..8: exact sum of squares; separability on observed values plus the Cert1D certificate of the one-dimensional Rastrigin function. Shekel4 1..3: a 16-ary branch-and-bound tree tiles [0,10]^4 by construction and every leaf's exact interval lower bound exceeds the value at the declared point unless the leaf lies within the 0.5% neighbourhood. Grishagin (quick 2, thorough all 100): a quadtree on which the upper bound of f^2 = d1^2 + d2^2 from observed values, a finite-difference gradient and a coefficient-derived Hessian bound is below f(declared)^2 except in the 0.5% neighbourhood. StronginC3: only refutation sampling of feasible points (the constrained minimum lies on a constraint boundary) - counted as undecided. Instances neither accepted nor refuted are reported as undecided in the evidence; corrupted declarations must be refuted (binding demonstration)."),
+                text="Each instance is decided by a certificate that TLC checks in exact rational arithmetic; clauses: the objective at the declared point is within 1e-4 of the declared value, no point of the box is lower than f* - 2e-3 max(1,|f*|), and every global minimiser lies within 0.5% of the box side of the declared point. Hill and Shekel (all 2000 members, in both tiers): Cert1D.tla with the optimum the problem object declares (convexity or end-point monotonicity near the declared point, certified sign change, covering with cell-wise lower bounds from Taylor's theorem and coefficient-derived derivative bounds). GKLS (quick 48, thorough all 400): outside the balls f is the non-negative paraboloid; inside ball i, f - f_i = n^2 (A n + B) with A n + B affine in the radius and the cosine, so four rational inequalities per basin (checked from the generated parameters) give f >= f_i >= -1 with equality only at the declared global minimiser; Calculate is tied to the case analysis point-wise. XSquared and Rastrigin in dimensions 1..8: exact sum of squares; separability on observed values plus the Cert1D certificate of the one-dimensional Rastrigin function. Shekel4 1..3: a 16-ary branch-and-bound tree tiles [0,10]^4 by construction and every leaf's exact interval lower bound exceeds the value at the declared point unless the leaf lies within the 0.5% neighbourhood. Grishagin (quick 1, thorough all 100): a quadtree on which the upper bound of f^2 = d1^2 + d2^2 from observed values, a finite-difference gradient and a coefficient-derived Hessian bound is below f(declared)^2 except in the 0.5% neighbourhood. StronginC3: only refutation sampling of feasible points (the constrained minimum lies on a constraint boundary) - counted as undecided. Instances neither accepted nor refuted are reported as undecided in the evidence; corrupted declarations must be refuted (binding demonstration)."),
 })
 
 CHECKS.update({
